@@ -142,7 +142,13 @@ TABLE = {
              "the single-client graphs is replayed on the real cocls::limited_queue (int and an instance-counting item, futures polled "
              "and awaited by coroutines, instrumented containers and lock checking that all state access is under the mutex and nothing "
              "is resumed under it), comparing the three internal queues, every push/pop future, return values and size() after each call. "
-             "The model of the pre-fix code is rejected by the same properties.",
+             "The single-client replay pushes through every public form of push (one argument, several arguments, a ready-made item by copy "
+             "and by move) with an item type that records which constructor built it, from what, and how often it was copied; what sits in "
+             "the queue, in the blocked queue and in every pop future must equal a direct T(args...) in the room, hand-over and blocked branch "
+             "alike. Each history may contain a push whose item constructor throws, in every branch including while a consumer waits: nothing "
+             "but the caller's result may change and bound, push-ready-iff-room, no-loss and no-lost-waiter keep holding afterwards. The models "
+             "of the code before fca2138 (item enqueued and parked) and before 3c3638a (a throwing push orphaned the waiting pop) are rejected "
+             "by the same properties on every run.",
         note="bounds: limit+3 pushes, limit+2 pops, 2+2 unblocks (thorough limit+4, limit+3, 3+2), limits 1..4; thread interleavings decided on "
              "the spec only (2P+2C, critical-section grain); TCB: TLC, projection code of limited_queue_replay.cpp, the lock-discipline "
              "instrumentation binding the code to that grain",
